@@ -100,6 +100,12 @@ def psliceOut (y : PSlice Float) : String :=
 def sliceOut (y : Slice Float) : String :=
   s!"{fout y.time} {fout y.temp} {flist y.comp} " ++ " ".intercalate (toString y.ph.length :: y.ph.map psliceOut)
 
+def stepOut (c : Cfg Float) (o : StepOut Float) : String :=
+  let st := o.st
+  s!"val {fout o.dtProposed} {fout o.dt} {fllOut o.xNew} " ++
+    " ".intercalate (toString st.ph.length :: st.ph.map phaseOut) ++
+    s!" {fout st.lookT} {fllOut st.lookEqA} {fllOut st.lookEqB} {st.hist.length} {sliceOut (st.cur c.nElem)}"
+
 /-- kwn.estep cfg state tf dtmin dtmax aPost upd →
     val dtProp dt <xNew> <phases> lookT <lookEqA> <lookEqB> histLen <newest slice>   |   raises -/
 def estep : P String := do
@@ -107,15 +113,20 @@ def estep : P String := do
   let a ← evalAns; let u ← lst updAns
   match eulerStep c s tf dtmin dtmax a u with
   | none => pure "raises"
-  | some o =>
-    let st := o.st
-    pure (s!"val {fout o.dtProposed} {fout o.dt} {fllOut o.xNew} " ++
-      " ".intercalate (toString st.ph.length :: st.ph.map phaseOut) ++
-      s!" {fout st.lookT} {fllOut st.lookEqA} {fllOut st.lookEqB} {st.hist.length} {sliceOut (st.cur c.nElem)}")
+  | some o => pure (stepOut c o)
+
+/-- kwn.rstep cfg state tf dtmin dtmax a2 a3 a4 aPost upd → same answer format -/
+def rstep : P String := do
+  let c ← cfg; let s ← state; let tf ← flt; let dtmin ← flt; let dtmax ← flt
+  let a2 ← evalAns; let a3 ← evalAns; let a4 ← evalAns; let a ← evalAns; let u ← lst updAns
+  match rk4Step c s tf dtmin dtmax a2 a3 a4 a u with
+  | none => pure "raises"
+  | some o => pure (stepOut c o)
 
 def handle (verb : String) : Option (P String) :=
   match verb with
   | "kwn.estep" => some estep
+  | "kwn.rstep" => some rstep
   | _ => none
 
 end KawinV.Drv.KWNFull
